@@ -124,6 +124,18 @@ PROPS = {
         floor={'quick': 5000, 'thorough': 50000},
         timeout={'quick': 3000, 'thorough': 20000},
     ),
+    'C10': dict(
+        runs=[dict(src='c10_format_check.c')],
+        level='exploration',
+        exhaustive=True,
+        rule=('the complete grid of the property: every (major, subtype) pair of the library\'s own lists x endian {FILE,LITTLE,BIG,CPU} x channels '
+              '{0,1,2,3,8,9,256,257,1024,1025} x samplerate {-1,0,1,8000,44100,2^31-1}; at each point sf_format_check is compared with sf_open (write); every '
+              'accepted point is written through the four sample types, closed, re-opened and compared; plus every index (and out-of-range indices) of the '
+              'simple/major/subtype enumerations and SFC_GET_FORMAT_INFO. case = one (major, subtype, endian) with its 60 grid points; distinct counts grid points'),
+        assumptions=COMMON_ASSUME + ['SD2 points are opened by path in a scratch directory, all others through virtual I/O',
+                                     're-open failures at the extreme sample rates 1 and 2^31-1 are keyed separately (rate field limits are C04 findings)'],
+        floor={'quick': 2000, 'thorough': 2000},
+    ),
 }
 
 NOT_APPLICABLE = {}
